@@ -27,6 +27,10 @@
     cancelled) the write fails and the call returns the write error; after a FAILED dial `m.transport` is nil and
     `sendPacket` dereferences it: a nil-pointer panic on the caller's goroutine (`DownOutcome.panicNilTransport`).
 
+  * the keepalive: one pinger per successful dial, under the same context. Its `ping()` waits for an rpc_result a
+    server never sends (a bare `pong` is ignored by `dispatchResponse`), so it stays parked after its first ping; a
+    pinger whose ping is written after a failed redial meets the nil transport like any caller. Not modelled further.
+
   Granularity: `Disconnect` + the creation of the new context inside one `Reconnect` are ONE step (`beginReconnect`),
   the outcome of the dial is a later step (`redialOk` / `redialFailed`), so Reconnects of the reader and of the
   application (another goroutine: what the PHONE_MIGRATE path does) may overlap at event granularity. The fields
